@@ -2,6 +2,7 @@ package progen
 
 import (
 	"fmt"
+	"sort"
 	"strings"
 
 	"pgregory.net/rapid"
@@ -101,7 +102,7 @@ func Generate(t *rapid.T, cfg *Config) *Program {
 	sb.WriteString("func main() {\n")
 	sb.WriteString(body)
 	sb.WriteString("}\n")
-	return &Program{Src: sb.String(), Used: g.used, Faulty: g.faulty, Parts: parts}
+	return &Program{Src: sb.String(), Used: g.used, Faulty: g.faulty, Parts: parts, ShadowedGlobals: sortedNames(g.shadowedGlobals)}
 }
 
 // Parts are the pieces of a program, for piecewise evaluation: Main holds the
@@ -164,10 +165,31 @@ func (g *Gen) genFunc(i int) string {
 		ps = append(ps, "depth int")
 		g.declare(&Var{Name: "depth", T: g.U.Int, RO: true})
 	}
+	// parameters without names (all of them, the language does not mix the two
+	// forms), or blank ones: they still receive arguments
+	unnamed, blank := false, -1
+	if g.on("unnamed-params") && np > 0 {
+		switch g.pick("pnames", 80, 10, 10) {
+		case 1:
+			unnamed = !recursive
+		case 2:
+			blank = g.n(0, np-1, "blankp")
+		}
+	}
 	for j := 0; j < np; j++ {
 		t := g.anyType(1, "ptype")
 		n := fmt.Sprintf("p%d", j)
 		f.Params = append(f.Params, t)
+		switch {
+		case unnamed:
+			ps = append(ps, t.Name)
+			g.use("unnamed-params")
+			continue
+		case j == blank:
+			ps = append(ps, "_ "+t.Name)
+			g.use("blank-param")
+			continue
+		}
 		ps = append(ps, n+" "+t.Name)
 		g.declare(&Var{Name: n, T: t})
 		if !valueOnly(t) {
@@ -183,6 +205,18 @@ func (g *Gen) genFunc(i int) string {
 	}
 	if recursive && nr == 0 {
 		f.Results = []*Type{g.basicType("rrt")}
+	}
+	// named results are variables of the function: its statements read and
+	// assign them, and the return statements list them among other values
+	named := g.on("named-results") && len(f.Results) > 0 && g.coin(35, "namedres")
+	var resNames []string
+	if named {
+		for j, r := range f.Results {
+			n := fmt.Sprintf("res%d", j)
+			resNames = append(resNames, n+" "+r.Name)
+			g.declare(&Var{Name: n, T: r})
+		}
+		g.use("named-results")
 	}
 	g.inFunc = f
 	g.results = f.Results
@@ -220,7 +254,12 @@ func (g *Gen) genFunc(i int) string {
 	}
 	g.endBlock(o, id)
 	if len(f.Results) > 0 {
-		o.line("return %s", g.returnExprs(2))
+		if named && g.coin(40, "barereturn") {
+			o.line("return")
+			g.use("bare-return")
+		} else {
+			o.line("return %s", g.returnExprs(2))
+		}
 	}
 	g.pop()
 	f.Cost = g.cost + 5
@@ -234,7 +273,9 @@ func (g *Gen) genFunc(i int) string {
 		rs = append(rs, r.Name)
 	}
 	res := ""
-	if len(rs) == 1 {
+	if named {
+		res = " (" + strings.Join(resNames, ", ") + ")"
+	} else if len(rs) == 1 {
 		res = " " + rs[0]
 	} else if len(rs) > 1 {
 		res = " (" + strings.Join(rs, ", ") + ")"
@@ -289,4 +330,13 @@ func (g *Gen) genPtrMethod(i int) string {
 	g.pmethods = append(g.pmethods, &fnInfo{Name: name, Params: []*Type{f.Type}, Cost: 4, Recv: st, RecvBase: st, Mutating: true})
 	g.use("method-ptr-recv")
 	return fmt.Sprintf("func (r *%s) %s(a %s) {\n\tr.%s %s a\n\tfmt.Println(%q, r.%s)\n}\n", st.Name, name, f.Type.Name, f.Name, op, name, f.Name)
+}
+
+func sortedNames(m map[string]bool) []string {
+	var out []string
+	for k := range m {
+		out = append(out, k)
+	}
+	sort.Strings(out)
+	return out
 }
